@@ -85,8 +85,8 @@ from .ast import (
 )
 
 def quote(s):
-    assert s.replace('_', '').replace('.', '').replace('/', '').isalnum(), \
-        'Only use quote() with names or IDs in Stone.'
+    # Used for names in error messages. Names are not always alphanumeric: the lexer
+    # accepts '-' in identifiers, and doc references carry free text.
     return "'%s'" % s
 
 def already_defined_error(name, existing, lineno, path):
